@@ -1,6 +1,8 @@
 #!/bin/bash
 # vs.sh <seed_dir> [extra verify_seed args]: pretty one-seed verification
-timeout 1500 /venv/bin/python /verif/tools/verify_seed.py "$@" 2>&1 | grep -v conda | /venv/bin/python -c "
+WT=/tmp/vseed_$$
+trap 'git -C /repo worktree remove --force $WT >/dev/null 2>&1' EXIT
+timeout 1500 /venv/bin/python /verif/tools/verify_seed.py "$@" --wt $WT 2>&1 | grep -v conda | /venv/bin/python -c "
 import json,sys
 for l in sys.stdin:
     try: d=json.loads(l)
